@@ -48,11 +48,11 @@ P = {
   note="The relation is between two runs of the implementation (that is what the property states); C03/C04 anchor the values.", ref="4 C10"),
  "C11": dict(
   technique="complete enumeration of all class spaces with a shape predicate; rapid lifts",
-  text="Every scoring method on all 139,968,000 v2 assignments, 2 x 16,588,800 v3 classes and 15,116,544 v4 classes, every run: finite, bit-exact nearest float64 to k/10, 0<=k<=100 (v2 EnvironmentalScore: k<=100 only, as stated), Rating accepts it. 60k raw lifts with corner profiles. exhaustive=true for the class part.",
+  text="After every Set step of 6k operation histories per version (objects on which a metric was set repeatedly), and every scoring method on all 139,968,000 v2 assignments, 2 x 16,588,800 v3 classes and 15,116,544 v4 classes, every run: finite, bit-exact nearest float64 to k/10, 0<=k<=100 (v2 EnvironmentalScore: k<=100 only, as stated), Rating accepts it. 60k raw lifts with corner profiles. exhaustive=true for the class part.",
   note="No oracle needed beyond the predicate in the statement.", ref="4 C11"),
  "C12": dict(
   technique="complete enumeration of neighbour graphs (metamorphic relation score(more severe) >= score(less severe))",
-  text="All classes and all one-step neighbour pairs: v2 base+temporal (34,992 classes), v3.0 base+temporal and v3.1 base+temporal+environmental (3,359,232 classes), v4.0 (15,116,544 classes, 149,905,728 pairs), every run; exhaustive=true. v2/v3.0 environmental are outside the statement and not checked.",
+  text="All classes and all one-step neighbour pairs, with the undefined value (ND/X) of every defaulting metric as an extra level placed where it scores: v2 base+temporal (72,900 classes), v3.0 base+temporal (259,200), v3.1 base+temporal+environmental (16,588,800 classes), v4.0 (47,775,744 classes, about 500 million pairs), every run; exhaustive=true. v2/v3.0 environmental are outside the statement and not checked.",
   note="Severity orders transcribed from the specifications (listed in the evidence assumptions).", ref="4 C12"),
  "C13": dict(
   technique="property-based testing (rapid): string mix, header transplants and Vector() outputs offered to all four parsers; native fuzzing in the thorough tier",
@@ -60,7 +60,7 @@ P = {
   note="Implementation-only relation (count of acceptors); C01 anchors membership.", ref="4 C13"),
  "C14": dict(
   technique="randomised concurrent workloads compared with their sequential execution under the Go race detector; property-based history-independence and aliasing checks",
-  text="(a) probe call before/after an unrelated history that dirties the v2 split pool: identical results, parse results anchored to the reference parser; (b,c) Vector() strings immutable across further calls and GC, copies and repeated parses independent; (d) 150 workloads per GOMAXPROCS in {1,2,4,16} (2-24 goroutines x <=40 calls x <=6 rounds) compared call by call with the sequential execution, binary built with -race, a race report fails the check and the workload is the replay (re-run 50x). Interleavings are sampled, not enumerated: exploration only.",
+  text="(a) probe call before/after an unrelated history that dirties the v2 split pool: identical results, parse results anchored to the reference parser; (b,c) Vector() strings immutable across further calls and GC, copies and repeated parses independent; (d) 80 workloads per GOMAXPROCS in {1,2,4,16} (2-24 goroutines, half of them focused on one function of one package) compared call by call with the sequential execution; (e) hot loops: one pure function (Rating, ParseVector, Vector, scores, Get) hammered by 2-16 goroutines for up to 2.4 million calls per case against precomputed results (finds lost updates in non-atomic caches that the race detector cannot see); (f) cold starts: for every (function, version) pair, fresh child processes whose very first calls are made concurrently by 16-48 goroutines and compared with the same calls made afterwards (finds lazily initialised state published before it is complete). Binary built with -race; a race report fails the check and the workload is the replay (re-run 50x). Interleavings are sampled, not enumerated: exploration only.",
   note="Assumes the Go race detector's happens-before analysis; the scheduler is not controlled.", ref="4 C14"),
  "C15": dict(
   technique="exhaustive boundary enumeration plus property-based testing (rapid floats) against a reference scale; native fuzzing on float64 bits in the thorough tier",
@@ -72,7 +72,7 @@ P = {
   note="Trusted base: spec.NomenclatureV4.", ref="4 C16"),
  "C17": dict(
   technique="property-based testing (rapid) with runtime allocation counters (testing.AllocsPerRun) as the oracle",
-  text="Exhaustively every optional metric x every value, alone and with all other optional metrics defined (the shapes that expose one lenVec branch), plus 2.5k valid vectors per version per quick run (all subsets of optional metrics / layouts / U spellings; coverage of every optional metric and U spelling enforced); ParseVector <=1, Vector() =1, Get/Set (legal and illegal value) =0, every scoring method, Rating, Nomenclature =0 allocations. Minimum of up to 4 measurements on a miss. Own process, no race detector.",
+  text="Exhaustively every optional metric x every value, alone and with all other optional metrics defined (the shapes that expose one lenVec branch), plus 2.5k valid vectors per version per quick run, each also measured with a rejected near-miss parsed before every successful parse (a scratch buffer lost on an error path) (all subsets of optional metrics / layouts / U spellings; coverage of every optional metric and U spelling enforced); ParseVector <=1, Vector() =1, Get/Set (legal and illegal value) =0, every scoring method, Rating, Nomenclature =0 allocations. Minimum of up to 4 measurements on a miss. Own process, no race detector.",
   note="Measured on the default toolchain go1.23.5 linux/amd64, steady state.", ref="4 C17"),
  "C18": dict(
   technique="property-based testing (rapid): single-defect injection with the expected error known by construction",
